@@ -6,10 +6,20 @@
    for slots already decided or pruned), provided the history is CONSISTENT WITH SOME CHAIN
    C : slot -> option hash (ft_consistent C ops = true, Model/FinalitySpec.v):
      - every fast-finalized block is the chain's block of its slot; every finalized slot is on the chain;
-     - at most one notarized block per slot, and it is the chain's block if the slot is on the chain
-       (genesis (0,0) counts as notarized);
+     - at most one notarized block per slot (genesis (0,0) counts as notarized); it NEED NOT be the chain's
+       block of its slot (a slot may hold a notarization certificate for one block and a notar-fallback
+       certificate for another from which the chain continues - a safe execution with < 20 % Byzantine
+       stake, found by the C01 composition) UNLESS the slot is finalized directly: a final mark + the
+       notarization mark put the notarized block on the chain, and a fast-finalized block is the slot's
+       notarized block if there is one;
      - a parent is older than its child, a block has one parent, and if a block is on the chain so is its
        parent and no slot strictly between them is.
+   (This is weaker than the premise of the first version of these theorems, which demanded that the
+   notarized block of a slot on the chain is the chain's block: C08_consistent_run_never_panics for the larger
+   class is what "fix: allow a notarized block other than the implicitly finalized one in a slot" achieves;
+   the pinned assertions panic on such histories: C08_pinned_notarized_other_block_panics_refuted, about the
+   copy of the tracker with the two pinned assertions (Model/FinalitySpec.v ft_*_gen true, which with false
+   IS the current model: C08_pinned_variant_differs_only_by_flag).)
    The chain is a ghost: the tracker never sees it, and C is universally quantified.
    Specification (Model/FinalitySpec.v), over the accumulated marks and links = the list of operations:
      Direct b    = fast mark for b, or final mark for b's slot and notar mark for b;
@@ -190,6 +200,31 @@ Theorem C08_genesis_report_depends_on_order :
     ft_first ta = ft_first tb /\ ft_highest ta = ft_highest tb.
 Proof. exact genesis_report_depends_on_order. Qed.
 
+(* the pinned tree asserted that a slot whose status is Notarized(h) / ImplicitlyFinalized(h) is implicitly
+   finalized / notarized with that very h: both consistent histories below panic there, and run through now *)
+Theorem C08_pinned_notarized_other_block_panics_refuted :
+  ft_consistent nb_chain nb_ops = true /\ ft_run_pinned ft_init nb_ops = None /\ ft_run ft_init nb_ops <> None /\
+  ft_consistent nb_chain2 nb_ops2 = true /\ ft_run_pinned ft_init nb_ops2 = None /\ ft_run ft_init nb_ops2 <> None.
+Proof. exact pinned_notarized_other_block_panics. Qed.
+
+Theorem C08_pinned_variant_differs_only_by_flag : forall ops t, ft_run_gen false t ops = ft_run t ops.
+Proof. exact ft_run_gen_false. Qed.
+
+(* the safe execution with a notarized block off the chain (stakes [41,40,19]; tracker operations of the pool
+   trace, then a late re-delivery of the notarization) satisfies the hypotheses, runs without panic and
+   reports (1,11) as implicitly finalized although slot 1 is notarized with (1,12) *)
+Example C08_nonvacuous_notarized_other_block :
+  ft_consistent nb_chain nb_ops = true /\ ft_consistent nb_chain2 nb_ops2 = true.
+Proof. exact nb_ops_consistent. Qed.
+Example C08_nonvacuous_notarized_other_block_run : exists t evs, ft_run ft_init nb_ops = Some (t, evs) /\
+  In (1, 11) (flat_map fe_impl_final evs) /\
+  all_final_events evs = [(4, 41); (2, 21); (1, 11); (0, 0)] /\ all_skip_events evs = [3] /\
+  ft_first t = 4 /\ ft_highest t = 4.
+Proof. exact nb_ops_run. Qed.
+Example C08_nonvacuous_late_notarization_of_other_block : exists t evs, ft_run ft_init nb_ops2 = Some (t, evs) /\
+  ft_view t 2 = VFinal 21 /\ all_final_events evs = [(3, 31); (2, 21)] /\ ft_first t = 0.
+Proof. exact nb_ops2_run. Qed.
+
 (* the hypotheses are satisfiable by a history with finalization before notarization, a child link before the
    parent link, a gap, and marks / links for slots already decided; and the run does what the theorems say *)
 Example C08_nonvacuous : ft_consistent ex_chain ex_ops = true.
@@ -224,3 +259,8 @@ Print Assumptions C08_inconsistent_history_refuted.
 Print Assumptions C08_genesis_report_depends_on_order.
 Print Assumptions C08_nonvacuous.
 Print Assumptions C08_nonvacuous_run.
+Print Assumptions C08_pinned_notarized_other_block_panics_refuted.
+Print Assumptions C08_pinned_variant_differs_only_by_flag.
+Print Assumptions C08_nonvacuous_notarized_other_block.
+Print Assumptions C08_nonvacuous_notarized_other_block_run.
+Print Assumptions C08_nonvacuous_late_notarization_of_other_block.
